@@ -33,6 +33,9 @@ type walletCase struct {
 	Stdin   bool   `json:"stdin"` // password through -stdin instead of .secret
 	Flags   int    `json:"flags"` // bit mask: option i goes on the command line instead of wallet.cfg
 	Twice   bool   `json:"twice"` // run -l a second time and compare
+	Ask     int    `json:"ask,omitempty"`    // != 0: no seed file, File is TYPED at the prompts (see typed.go)
+	Term    string `json:"term,omitempty"`   // hex of the line terminator typed after the password (default 0a)
+	Second  string `json:"second,omitempty"` // hex: typed at the re-enter prompt instead of the password (mismatch)
 }
 
 var walletBin, walletTmp string
@@ -385,7 +388,7 @@ func caseWallet(o *vlib.Oracle, c *rec, cs Case) {
 	defer os.RemoveAll(dir)
 	cfg, _ := w.args()
 	os.WriteFile(filepath.Join(dir, "wallet.cfg"), []byte(cfg), 0600)
-	if !w.Stdin {
+	if !w.Stdin && w.Ask == 0 {
 		os.WriteFile(filepath.Join(dir, ".secret"), unhx(w.File), 0600)
 	}
 	var sout []byte
@@ -399,7 +402,15 @@ func caseWallet(o *vlib.Oracle, c *rec, cs Case) {
 	// spec
 	ref, refOK := refWallet(w, sout)
 	// real: -l
-	lst := runWallet(dir, w, "-l")
+	var lst walRun
+	if w.Ask != 0 {
+		var goOn bool
+		if lst, goOn = typedPhase(o, c, cs, dir, len(rep) > 0 && rep[0] == "err"); !goOn {
+			return
+		}
+	} else {
+		lst = runWallet(dir, w, "-l")
+	}
 	wtxt, werr := os.ReadFile(filepath.Join(dir, "wallet.txt"))
 	realOK := werr == nil && lst.code == 0
 	if len(rep) == 0 || rep[0] == "bad-op" {
@@ -618,7 +629,8 @@ func caseWallet(o *vlib.Oracle, c *rec, cs Case) {
 	if w.Twice {
 		again := runWallet(dir, w, "-l")
 		w2, _ := os.ReadFile(filepath.Join(dir, "wallet.txt"))
-		if stripTimes(again.stdout) != stripTimes(lst.stdout) || !bytes.Equal(w2, wtxt) {
+		// (the stdout of a typed run carries the prompts as well: compare the key file only)
+		if (w.Ask == 0 && stripTimes(again.stdout) != stripTimes(lst.stdout)) || !bytes.Equal(w2, wtxt) {
 			c.PropFail("deterministic", "two runs with the same seed and configuration give different output", cs)
 		}
 		c.Hit("wallet-run-twice")
